@@ -317,6 +317,8 @@ func c15WhoWrites(c *Ctx) {
 	r.Note("R2.whowrites: %d element stores, %d table assignments, %d table uses examined in %d functions of package band", nStores, nTableStores, nUses, len(fns))
 }
 
+var c15PhiBusy = map[*ssa.Phi]bool{}
+
 // c15TableUseEscapes: how a use of a loaded table value lets it escape ("" = harmless).
 func c15TableUseEscapes(ref ssa.Instruction, v ssa.Value) string {
 	switch x := ref.(type) {
@@ -356,7 +358,21 @@ func c15TableUseEscapes(ref ssa.Instruction, v ssa.Value) string {
 		}
 		return ""
 	case *ssa.Phi:
-		return "table flows into a phi"
+		// a loop that walks the table window by window (rest = rest[16:]): the phi is another local name for (a window
+		// of) the table; what matters is what happens to the phi
+		if c15PhiBusy[x] {
+			return ""
+		}
+		c15PhiBusy[x] = true
+		defer delete(c15PhiBusy, x)
+		if refs := x.Referrers(); refs != nil {
+			for _, r2 := range *refs {
+				if why := c15TableUseEscapes(r2, x); why != "" {
+					return "table window (phi): " + why
+				}
+			}
+		}
+		return ""
 	}
 	return fmt.Sprintf("table used by %T", ref)
 }
